@@ -202,3 +202,27 @@ contract(
     ensures={"depth-kept": "len(self.contexts) == old(len(self.contexts))"},
     from_property="bound earlier in the same source by ... for",
 )
+
+
+# ---- the decision itself: a statement is Python exactly when every name it READS is bound in SOME enclosing scope -----------------------
+NAMESET = VSet(Str)
+SCOPE_EXT = {
+    "gather_load_store_names": Ext(ret=Tuple(NAMESET, NAMESET), pure=True, uf="load_store", note="ghost: (names the node reads, names it binds) - the walk itself is covered by the bounded probes"),
+    "load_store": Ext(ret=Tuple(NAMESET, NAMESET), pure=True, uf="load_store"),
+}
+READS = "(x in load_store(node)[0] and x not in load_store(node)[1])"
+BOUND_SOMEWHERE = "exists(lambda k: x in self.contexts[k], 0, len(self.contexts))"
+contract(
+    A + "CtxAwareTransformer.is_in_scope", "C02", params=dict(self=T_, node=Opaque("node")), externals=SCOPE_EXT, returns=Bool,
+    locals={"names": NAMESET, "store": NAMESET, "inscope": Bool},
+    loops={"for#1": dict(invariant={
+        "still-missing-are-the-read-names-found-in-none-of-the-scopes-passed":
+            "forall_str(lambda x: (x in names) == (%s and forall(lambda k: x not in self.contexts[k], len(self.contexts) - _i, len(self.contexts))))" % READS,
+        "something-is-still-missing": "exists_str(lambda x: x in names)",
+        "not-decided-yet": "not inscope"},
+        havoc_only=[])},
+    ensures={"python-exactly-when-every-name-read-is-bound-in-some-enclosing-scope":
+             "result == forall_str(lambda x: implies(%s, %s))" % (READS, BOUND_SOMEWHERE)},
+    from_property="When every name a statement reads is defined - as a Python builtin, a name already in the session, or bound earlier in the same source ... - xonsh "
+                  "executes it with exactly Python's meaning (the decision: all read names are found in the scope stack; names the statement itself binds do not count)",
+)
